@@ -21,40 +21,34 @@ class PCTSP(Adapter):
     # ---- instances -------------------------------------------------------
     def prize_vectors(self, tier):
         """(prize, decoy) pairs.  Requirement 8: the values make subsets that reach it exactly
-        (3+5, 4+4, 1+3+4, 8), miss it by one unit (3+4, 1+1+5) or never reach it (all visited)."""
-        if tier == "quick":
-            vals, N = (1, 3, 4, 5), 3
-        else:
-            vals, N = (1, 2, 3, 4, 5), 4
-        out = []
-        for p in itertools.product(vals, repeat=N):
-            decoy = [8 - x for x in p]       # very different sums, so the wrong vector shows
-            out.append((list(p), decoy))
-        return N, out
-
-    def pen_vectors(self, tier, N):
-        base = [1, 2, 4, 7, 3][:N]
-        return [base] if tier == "quick" else [base, [5] * N]
-
-    def templates(self, tier):
-        return [(0, 0), (1, 2)] if tier == "quick" else [(0, 0), (2, 3)]
+        (3+5, 4+4, 1+3+4), miss it by one unit (3+4, 1+1+5), pass it by one (4+5) or never
+        reach it (1+1+1+1: the depot must open because everything is visited)."""
+        vals, N = (1, 3, 4, 5), (3 if tier == "quick" else 4)
+        vecs = [list(p) for p in itertools.product(vals, repeat=N)]
+        if tier != "quick":   # zero prizes, a single node that is enough, sums with 2 and 7
+            vecs += [[0, 0, 0, 8], [0, 0, 0, 0], [8, 8, 8, 8], [2, 2, 2, 2], [7, 1, 9, 2],
+                     [2, 6, 0, 7], [0, 4, 4, 0], [7, 0, 0, 1]]
+        # decoy: very different sums, so that reading the wrong prize vector shows
+        return N, [(p, [8 - x if x <= 8 else 0 for x in p]) for p in vecs]
 
     def family(self, tier, seed=0):
         insts = []
         N, pvs = self.prize_vectors(tier)
-        for (w, rot) in self.templates(tier):
+        pens = [[1, 2, 4, 7][:N], [5] * N]
+        tmpl = [(0, 0), (1, 2)] if tier == "quick" else [(0, 0), (2, 3)]
+        for n, (w, rot) in enumerate(tmpl):
             pts, g, D = points_for(N + 1, w, rot)
-            for pen in self.pen_vectors(tier, N):
-                for req in self.reqs:
-                    for (p, decoy) in pvs:
-                        insts.append(self.make_inst(N, D, pts, g, p, decoy, pen, req))
+            for req in self.reqs:
+                for (p, decoy) in pvs:
+                    insts.append(self.make_inst(N, D, pts, g, p, decoy, pens[n], req))
         if tier != "quick":
             # a few larger instances (N = 5): exact hits 2+6, 3+5, 1+3+4, 2+2+4 ...
             pts, g, D = points_for(6, 0, 0)
             for p in ([2, 6, 3, 5, 1], [4, 4, 4, 4, 4], [1, 1, 1, 1, 1], [3, 3, 2, 7, 8],
                       [1, 2, 2, 3, 1], [5, 2, 1, 1, 7]):
-                insts.append(self.make_inst(5, D, pts, g, p, [8 - x for x in p],
-                                            [3, 1, 4, 1, 5], 8))
+                for req in self.reqs:
+                    insts.append(self.make_inst(5, D, pts, g, p, [8 - x for x in p],
+                                                [3, 1, 4, 1, 5], req))
         return with_ids(insts)
 
     def make_inst(self, N, D, pts, g, prize, other, pen, req):
